@@ -24,12 +24,12 @@ import (
 // provenance, validated-proof propagation and upstream-requiring chases —
 // answers exactly as before.
 //
-// One knowing divergence: hop entries served through the composer do not
-// tick their own hit/prefetch machinery (the Msg path's chase reaches them
-// through the internal sub-pipeline, which does). A hop that expires ages
-// out of the walk, the next hit declines to the Msg path, and the ordinary
-// chase re-resolves and re-admits it — self-healing at the cost of one
-// decoded serve.
+// Hop entries served through the composer do not tick their own hit
+// machinery (the Msg path's chase reaches them through the internal
+// sub-pipeline, which does), so the walk declines when a hop is due for a
+// prefetch and lets that path claim the refresh; see collectWireChase. A
+// hop that expires ages out of the walk, the next hit declines to the Msg
+// path, and the ordinary chase re-resolves and re-admits it.
 
 const (
 	// maxWireChaseHops mirrors the Msg-path chase depth.
@@ -228,6 +228,16 @@ func (c *Cache) collectWireChase(
 		next := c.checkCache(key)
 		if next == nil || next.wireServe&wireEligible == 0 ||
 			!entryMatchesWireQuestion(next, target, qtype, qclass, cd) {
+			return 0, false
+		}
+		// A hop that is due for a prefetch declines the walk, exactly as a
+		// prefetch-due exact hit declines the byte path: the Msg path's
+		// chase reaches the hop through the internal sub-pipeline, which
+		// claims the refresh. Walking past it here kept the hop from ever
+		// being refreshed by alias traffic, and a later question for the
+		// hop was answered differently depending on which path the alias
+		// questions before it had taken.
+		if c.prefetchQueue != nil && next.PrefetchEligible() && next.ShouldPrefetch(c.config.Prefetch) {
 			return 0, false
 		}
 		entry = next
